@@ -61,7 +61,31 @@ def project(cs, evs, maxentries):
         count = None      # numeric argument typed so far (None = none, "?" = untracked)
         mini_open = None  # main line when a minibuffer opened
         mini_text = []
+        last_search = getattr(project, "_last", {}).get(id(cs))   # text of the last non-incremental search (kept by the Shell across calls)
+        last_main = None      # the edited line at the most recent snapshot that showed it
+        mini_pending = None   # a command that ran inside the minibuffer: it closed it if the next snapshot shows the edited line again
         for e in es:
+            if e["ev"] in ("begin", "wait") and mini_pending is not None and not stack:
+                if not e["minibuf"]:
+                    # (a non-incremental search: Enter runs the search and closes the minibuffer, but the API keeps pointing
+                    #  at the minibuffer until the loop comes round)
+                    cmd0, b0, e0 = mini_pending
+                    pre = mini_open if mini_open is not None else e["line"]
+                    if b0.get("local") != "isearch":
+                        last_search = list(mini_text)
+                        if not hasattr(project, "_last"):
+                            project._last = {}
+                        project._last[id(cs)] = last_search
+                    out.append(({"ev": "nav", "cmd": cmd0, "kind": "substr" if mini_text else "other", "delta": 0, "pre": pre, "cur": len(pre),
+                                 "stext": mini_text, "post": e["line"], "rx": False,
+                                 "srcsame": b0.get("hsrc") == e0.get("hsrc")}, e0))
+                    mini_open = None
+                mini_pending = None
+            if e["ev"] in ("begin", "wait", "end") and "minibuf" in e:
+                if e["minibuf"] and mini_open is None and last_main is not None and e["ev"] != "end":
+                    mini_open, mini_text = last_main, []      # the minibuffer opened since the last snapshot of the edited line
+                if not e["minibuf"]:
+                    last_main = e["line"]
             if e["ev"] == "begin":
                 stack.append(e)
             elif e["ev"] == "end" and stack:
@@ -93,9 +117,15 @@ def project(cs, evs, maxentries):
                     continue
                 if b["minibuf"] and e["minibuf"]:
                     mini_text = e["line"]
+                    mini_pending = (cmd, b, e)
                     continue
                 if b["minibuf"] and not e["minibuf"]:
                     pre = mini_open if mini_open is not None else e["line"]
+                    if b.get("local") != "isearch":
+                        last_search = list(mini_text)
+                        if not hasattr(project, "_last"):
+                            project._last = {}
+                        project._last[id(cs)] = last_search
                     out.append(({"ev": "nav", "cmd": cmd, "kind": "substr" if mini_text else "other", "delta": 0, "pre": pre, "cur": len(pre),
                                  "stext": mini_text, "post": e["line"], "rx": bool(mini_text) and rx_match(mini_text, e["line"]),
                                  "srcsame": b.get("hsrc") == e.get("hsrc") or cmd.startswith("accept") or cmd in RECORD | REPLAY}, e))
@@ -133,6 +163,10 @@ def project(cs, evs, maxentries):
                     elif cmd in SUBSTR:
                         kind = "substr"
                     stext = pre[:b["cur"]] if b["cur"] < len(pre) else pre
+                    if cmd.startswith("vi-search-again"):
+                        # the same text as the last non-incremental search, anywhere in the line
+                        if last_search is not None:
+                            kind, stext = ("substr" if last_search else "other"), last_search
                     out.append(({"ev": "nav", "cmd": cmd, "kind": kind, "delta": delta, "pre": pre, "cur": b["cur"], "stext": stext, "post": post, "rx": False,
                                  "srcsame": b.get("hsrc") == e.get("hsrc")}, e))
                 elif e["line"] != b["line"] and not e["minibuf"]:
